@@ -1,5 +1,88 @@
-import SudsModel.Xml.Edit
+import SudsModel.Lemmas.Edit
+/-!
+# C19 — Editing or cloning the XML tree affects exactly the nodes named
+
+Model: `SudsModel/Xml/Tree.lean`, `SudsModel/Xml/Edit.lean`; lemmas: `SudsModel/Lemmas/Edit.lean`.
+Node identity (`id`) stands for Python object identity; `Nodup ids` = no node object occurs twice.
+-/
 namespace Suds.Props.C19
 open Suds.Xml
-example : True := trivial
+
+/-- **detach / remove**: the implementation's search (first node that *is* the given one, search
+stops there) removes exactly the node named — wherever it sits, whatever its siblings are called —
+and hands back that very subtree; nothing else in the tree changes. -/
+theorem detach_exact (c : Nat) (e : Elem) (h : e.ids.Nodup) :
+    (e.cut c).1 = e.erase c ∧ (e.cut c).2 = findKids c e.kids := cut_eq_erase c e h
+
+/-- Removing a direct child: exactly that child leaves the list; siblings stay, unchanged, in order. -/
+theorem remove_child_exact (c : Nat) (kids : List Elem) (h : (idsKids kids).Nodup)
+    (hc : ∃ k ∈ kids, k.id = c) : eraseKids c kids = kids.filter (fun k => k.id != c) :=
+  eraseKids_direct c kids h hc
+
+/-- A node that is not in the tree: `detach` changes nothing. -/
+theorem detach_absent (c : Nat) (e : Elem) (h : c ∉ idsKids e.kids) : e.cut c = (e, none) := cut_notin c e h
+
+/-- D1 (fixed in the repository): what `list.remove` did with `Element.__eq__` (= same name and
+namespace). Asked to remove the *second* `<a/>`, it removes the first. -/
+theorem eq_based_wrong_node_witness :
+    let a1 : Elem := .mk 2 none "a" none [] [] (some "one") []
+    let a2 : Elem := .mk 3 none "a" none [] [] (some "two") []
+    (eraseFirstBy (fun k => k.name == a2.name) [a1, a2]).map Elem.id = [3] ∧
+    (eraseKids a2.id [a1, a2]).map Elem.id = [2] := by decide
+
+/-- **replaceChild**: the child is located by identity … -/
+theorem replace_locates_child (c : Nat) (pre post : List Elem) (x : Elem) (hx : x.id = c)
+    (hpre : ∀ y ∈ pre, y.id ≠ c) : indexBy (·.id == c) (pre ++ x :: post) = some pre.length :=
+  indexBy_pos c pre post x hx hpre
+
+/-- … and the content nodes end up, in order, exactly where it was. -/
+theorem replace_inserts_in_place (pre post content : List Elem) :
+    content.foldl insStep (pre ++ post, pre.length) = (pre ++ content ++ post, pre.length + content.length) :=
+  insert_seq pre post content
+
+/-- **prune** keeps exactly the children that are non-empty after their own pruning, each judged
+on itself, in order. -/
+theorem prune_exact (kids : List Elem) :
+    pruneKids kids = (kids.map Elem.prune).filter (fun k => !k.isEmptyAll) := pruneKids_exact kids
+
+/-- **clone**: the copy consists of fresh, pairwise distinct nodes (identities `next, next+1, …`),
+so it shares no node with any tree built before, and has as many nodes as the original. -/
+theorem clone_fresh (ctx : Ctx) (next : Nat) (e : Elem) :
+    (e.clone ctx next).1.ids = List.range' next e.size ∧ (e.clone ctx next).2 = next + e.size :=
+  clone_ids ctx next e
+
+theorem clone_independent (ctx : Ctx) (next : Nat) (e : Elem) (old : List Nat) (hold : ∀ i ∈ old, i < next) :
+    ∀ i ∈ (e.clone ctx next).1.ids, i ∉ old := by
+  intro i hi hio
+  rw [(clone_ids ctx next e).1] at hi
+  have := (List.mem_range'_1.mp hi).1
+  have := hold i hio
+  omega
+
+/-- The copy keeps the text (D2, fixed in the repository), the attributes and the local name. -/
+theorem clone_keeps_text_attrs (ctx : Ctx) (next : Nat) (e : Elem) :
+    (e.clone ctx next).1.text = e.text ∧ (e.clone ctx next).1.attrs = e.attrs ∧
+    (e.clone ctx next).1.name = e.name ∧ (e.clone ctx next).1.pfx = e.pfx := by
+  cases e; simp [Elem.clone, Elem.text, Elem.attrs, Elem.name, Elem.pfx]
+
+/-- Lookups: `getChildren(name)` is the in-order sub-list of matching children; `getChild` is its head. -/
+theorem getChild_is_first (e : Elem) (ctx : Ctx) (q : String) :
+    getChild e ctx q = (getChildren e ctx (some q)).head? := by
+  simp [getChild, getChildren, List.head?_filter]
+
+/-! ### Non-vacuity -/
+
+def demo : Elem :=
+  .mk 1 none "r" none [("p", "urn:p")] [] none
+    [.mk 2 none "a" none [] [] (some "one") [], .mk 3 none "a" none [] [⟨some "p", "k", "v"⟩] none [],
+     .mk 4 (some "p") "a" none [] [] none [.mk 5 none "a" (some "urn:d") [] [] none []]]
+
+example : demo.ids.Nodup := by decide
+example : ((demo.cut 3).1.kids.map Elem.id, (demo.cut 3).2.map Elem.id) = ([2, 4], some 3) := by decide
+example : (demo.prune.kids.map Elem.id) = [2, 3] := by decide
+example : ((demo.clone [] 10).1.ids) = [10, 11, 12, 13, 14] := by decide
+example : (demo.kids.filter fun c => elemMatch c [demo.scope] (some "a") none).map Elem.id = [2, 3, 4] ∧
+          (demo.kids.filter fun c => elemMatch c [demo.scope] (some "a") (some (some "urn:p"))).map Elem.id = [4] := by
+  decide
+
 end Suds.Props.C19
